@@ -1201,6 +1201,8 @@ impl Vm {
         self.active_fiber_mut().frames.pop();
         if self.active_fiber().has_finished() {
             if self.active_fiber().caller.is_some() {
+                // A finished fiber never runs again; what is left on its stack is garbage.
+                self.active_fiber_mut().stack.clear();
                 self.unload_fiber(None)?;
                 self.poke(0, result);
                 return Ok(None);
